@@ -508,7 +508,7 @@ xds_decoder(vbi_decoder *vbi, int _class, int type,
 				sum |= 1UL << 30;
 
 				if (sum != n->nuid) {
-					if (n->nuid != 0) {
+					if (n->nuid != 0 || vbi_chsw_pending(vbi)) {
 						/* vbi_chsw_reset() locks cc.mutex in
 						   vbi_caption_channel_switched() and
 						   may call event handlers. */
